@@ -458,28 +458,48 @@ def localize_crash(suite, seed, ncases, workdir, seqdiff, replay=None):
             f.write("case %s\n" % header)
             for o in ops: f.write(o + "\n")
             f.write("end\n")
-        rc, out = sh([seqdiff, "-suite", suite, "-replay", p, "-out", os.path.join(workdir, "crashrun")], env=GOENV, timeout=300)
+        for _ in range(3):       # a crash that depends on goroutine timing may need more than one go
+            rc, out = sh([seqdiff, "-suite", suite, "-replay", p, "-out", os.path.join(workdir, "crashrun")], env=GOENV, timeout=300)
+            if rc != 0: break
         return (rc != 0), out
-    # binary search over the case list (a crash needs a single case: cases are independent)
-    lo, hi = 0, len(cases)
-    def range_crashes(a, b):
+    def list_crashes(cs, tries=3):
         p = os.path.join(workdir, "range.cases")
         with open(p, "w") as f:
-            for header, ops, _ in cases[a:b]:
+            for header, ops, _ in cs:
                 f.write("case %s\n" % header)
                 for o in ops: f.write(o + "\n")
                 f.write("end\n")
-        rc, _ = sh([seqdiff, "-suite", suite, "-replay", p, "-out", os.path.join(workdir, "crashrun")], env=GOENV, timeout=600)
-        return rc != 0
-    if not range_crashes(lo, hi): return None
-    while hi - lo > 1:
-        mid = (lo + hi) // 2
-        if range_crashes(lo, mid): hi = mid
-        elif range_crashes(mid, hi): lo = mid
-        else: return None   # needs more than one case: give up localising
-    header, ops, _ = cases[lo]
-    ok, out = crashes(header, ops)
+        for _ in range(tries):       # a crash that depends on goroutine timing may need more than one go
+            rc, out = sh([seqdiff, "-suite", suite, "-replay", p, "-out", os.path.join(workdir, "crashrun")], env=GOENV, timeout=600)
+            if rc != 0: return True, out
+        return False, out
+    def multi(cs, out):
+        flat = []
+        for header, ops, _ in cs:
+            flat += ["case " + header] + list(ops) + ["end"]
+        return {"header": "%d case histor%s run in ONE process (the failure needs state that outlives a call, or depends on goroutine timing: replay tries several times)" % (len(cs), "y" if len(cs) == 1 else "ies one after the other"),
+                "ops": flat, "cases": [[h, list(o)] for h, o, _ in cs], "output": out[-2500:]}
+    ok, best_out = list_crashes(cases)
     if not ok: return None
+    # delta debugging over whole cases, bounded in time; `cs` is always a list on which a crash WAS observed
+    cs = list(cases); n = 2; t_end = time.time() + 240
+    while len(cs) >= 2 and time.time() < t_end:
+        chunk = max(1, len(cs) // n); reduced = False
+        for start in range(0, len(cs), chunk):
+            cand = cs[:start] + cs[start + chunk:]
+            if cand:
+                ok, out = list_crashes(cand)
+                if ok:
+                    cs, best_out = cand, out; n = max(n - 1, 2); reduced = True; break
+            if time.time() > t_end: break
+        if not reduced:
+            if chunk == 1: break
+            n = min(n * 2, len(cs))
+    if len(cs) != 1:
+        return multi(cs, best_out)
+    header, ops, _ = cs[0]
+    ok, out = crashes(header, ops)
+    if not ok: return multi(cs, best_out)
     # shrink ops
     n = 2
     budget = 60
